@@ -168,6 +168,15 @@ impl MarkdownEventsReader {
     fn pop_block(&mut self) {
         let block = self.blocks_stack.pop().unwrap();
 
+        // a quote that holds nothing (a lone '>' line, or only raw HTML, which is dropped) is not
+        // part of the note: kept, it would not be written, but it would still count as a block
+        // of the note (its first block, for one, which decides whether the note has a title)
+        if let DocumentBlock::BlockQuote(quote) = &block {
+            if quote.blocks.is_empty() {
+                return;
+            }
+        }
+
         if self.blocks_stack.len() == 0 {
             self.blocks.push(block);
             return;
